@@ -154,7 +154,14 @@ def base_discovery(chk):
         chk.goal('base: a nested state directory below the common ancestor is not taken', len(where) == 2 and want == '/p' and cwd != '/p')
         wit['base'] = base
         wit['expected'] = want
-        if os.path.normpath(base) != want or base != os.path.normpath(base):
+        nb = os.path.normpath(base)
+        if not where:
+            # a fresh project: any directory that contains the working directory and every target keeps later invocations on one
+            # database; the deepest such directory is what this implementation (and the original) picks, but it is not required
+            good = (lca == nb or lca.startswith(nb.rstrip('/') + '/'))
+        else:
+            good = nb == want
+        if not good:
             kind = 'fresh-project' if not where else 'existing-project'
             return {'role': 'base:wrong-base:' + kind, 'kind': 'base', 'witness': wit,
                     'what': 'from %s, targets %r (.redo in %s): the project base becomes %r, expected %r - another invocation from elsewhere '
